@@ -3,6 +3,7 @@ public calls return, let TLC (specs/MemTrace.tla) decide whether each recorded t
 the abstract byte store."""
 import json
 import multiprocessing as mp
+import multiprocessing.pool
 import os
 import random
 
